@@ -627,6 +627,7 @@ func c03(c *Ctx) {
 	c03PeerKeys(c)
 	c04DatagramBuffers(c)
 	pooledObjectsReset(c, "pooled-object-reset", "services", "listener", "server")
+	c03LimiterState(c)
 	// the goroutine that serves a connection works on that connection: no goroutine started in a loop of the listeners or
 	// the server reads a variable the loop assigns again (shared with C08)
 	c08ListenerOwnVariables(c)
